@@ -103,6 +103,13 @@ def opsC17Addr : List (String × Handler) := [
         | _ => "err"
       | none => "bad-op"
     | _ => "bad-op"),
+  ("shard.match_acct", fun
+    | [m, a] => match m.toNat?, hexBV a with
+      | some mv, some ab => match Shard.parseShardID (BitVec.ofNat 64 mv) with
+        | some sh => if matchAccountID sh ⟨0#32, ab⟩ then "ok 1" else "ok 0"
+        | none => "err"
+      | _, _ => "bad-op"
+    | _ => "bad-op"),
   ("addr.anycast", fun
     | [w, a, d, p] => match w.toInt?, hexBV a, d.toNat?, p.toNat? with
       | some wi, some ab, some dn, some pn =>
